@@ -11,10 +11,11 @@ import (
 	"mcverif/engine"
 	"mcverif/gen"
 	"mcverif/props/c09"
+	"mcverif/vmap"
 )
 
 var Spec = engine.Spec{
-	ID: "C10", Run: Run, QuickBud: 5 * time.Minute, ThorBud: 25 * time.Minute,
+	ID: "C10", Run: Run, MapOrders: true, MapOrdersQuick: []int{vmap.Alternating}, QuickBud: 5 * time.Minute, ThorBud: 25 * time.Minute,
 	Technique: "explicit enumeration of all ordered pairs of small node lists, ill-formed ones included; real Intersect (and Union for absorption) against set bounds; attribute cube by reflection over every Node field",
 	Rule:      "case = ordered pair of list specs or one attribute-cube point; distinct state = pair of canonical list keys",
 	Assume:    []string{"attribute rule excludes id and type", "roots/edges are bounded from both sides as the statement says; any result between the bounds is accepted"},
@@ -177,6 +178,7 @@ func pairCase(t *engine.T, A, B gen.ListSpec) *engine.Violation {
 			}
 		}
 	}
+	t.Observe(mx.SetKey())
 	t.State(gen.CanonKey(a) + " I " + gen.CanonKey(b))
 	t.Outcome(fmt.Sprintf("n=%d e=%d r=%d", len(mx.Nodes), len(mx.Edges), len(mx.Roots)))
 	if len(mx.Nodes) > 0 {
